@@ -248,6 +248,19 @@ def buffers():
     if sorted(q for _, q in scans) != ["Apostrophe", "QuoteMark"] or len(re.findall(r"!=\s*XalanUnicode::char(?:QuoteMark|Apostrophe)\s*;\s*\+\+i", body)) != 2:
         raise AnchorError("tokenize: the two bounded quote scans 'for(++i; i < nChars && (c = pat[i]) != quote; ++i);' not recognised")
     d["scans"] = scans
+    # range guards in front of the double -> integer casts (fail closed when one disappears)
+    dsh = strip_comments(read("PlatformSupport/DOMStringHelper.cpp"))
+    if len(re.findall(r"else\s+if\s*\(\s*theValue\s*>=\s*-9223372036854775808\.0\s*&&\s*theValue\s*<\s*9223372036854775808\.0\s*&&\s*static_cast<XMLInt64>\(theValue\)\s*==\s*theValue\s*\)", dsh)) != 2:
+        raise AnchorError("NumberToDOMString/NumberToCharacters(double): XMLInt64 range test in front of the cast not recognised")
+    need(r"if\s*\(\s*theIndex\s*<=\s*0\.0\s*\|\|\s*theIndex\s*>\s*double\s*\(\s*theLength\s*\)\s*\|\|\s*double\s*\(\s*NodeRefListBase::size_type\s*\(\s*theIndex\s*\)\s*\)\s*!=\s*theIndex\s*\)",
+         strip_comments(read("XPath/XPath.cpp")), "XPath::predicates: comparison as doubles in front of the size_type cast")
+    need(r"DoubleSupport::lessThan\s*\(\s*theValue\s*,\s*0\.5\s*\)\s*==\s*true\s*\|\|\s*theValue\s*>=\s*double\s*\(\s*std::numeric_limits<CountType>::max\s*\(\s*\)\s*\)\s*\)\s*\{\s*NumberToDOMString\s*\(\s*theValue\s*,\s*theResult\s*\)\s*;\s*\}\s*else\s*\{\s*const\s+CountType\s+theNumber\s*=\s*CountType\s*\(\s*DoubleSupport::round\s*\(\s*theValue\s*\)\s*\)",
+         en, "ElemNumber::getCountString: CountType range test in front of the cast")
+    need(r"if\s*\(\s*!\s*\(\s*theLength\s*>=\s*1\.0\s*\)\s*\|\|\s*theLength\s*>=\s*double\s*\(\s*XalanDOMString::npos\s*\)\s*\|\|\s*thePaddingStringLength\s*==\s*0\s*\)\s*\{\s*return",
+         strip_comments(read("XalanEXSLT/XalanEXSLTString.cpp")), "str:padding: length range test in front of the size_type casts")
+    mth = strip_comments(read("XalanEXSLT/XalanEXSLTMath.cpp"))
+    need(r"theValues\s*\[\s*thePrecision\s*<\s*theSize\s*\?\s*XalanDOMString::size_type\s*\(\s*thePrecision\s*\)\s*:\s*theSize\s*-\s*1\s*\]", mth, "math:constant: table index guard")
+    need(r"if\s*\(\s*thePrecision\s*<=\s*0\.0L?\s*\)\s*\{\s*return", mth, "math:constant: non-positive precision test")
     return d
 
 
